@@ -129,6 +129,34 @@ func (m *c04mon) Check(s *sim.Sim, st *sim.Step) []*sim.Violation {
 				au.fail(now, W, D, N)
 				ev = "failure"
 			}
+		case "recover_end":
+			// finishing a password recovery is no failed attempt and, unless recovery is configured to log the
+			// user in (then it passes the same guard as a correct password), no login either: count, last
+			// failure and lock stay exactly what they were
+			tok := s.TokenByBytes("recover", a.Secret)
+			if tok == nil {
+				return nil // not a link the library ever mailed: no account is concerned
+			}
+			u := rec.Before.Users[tok.PID]
+			if u == nil {
+				return nil
+			}
+			U = u.PID
+			au := m.auto(u)
+			ev = "recovery-without-login"
+			if pid, ok := s.PrimaryValid(st); ok && pid == U && rec.After.Users[U] != nil && rec.After.Users[U].Password != u.Password {
+				locked := au.until.After(now)
+				au.last, au.hasLast = now, true
+				ev = "correct-blocked"
+				if !locked && (u.Confirmed || !s.Cfg.Has("confirm")) {
+					if has2FA(s.Cfg, u) {
+						ev = "correct-parked"
+					} else {
+						au.count = 0
+						ev = "correct-completed"
+					}
+				}
+			}
 		case "totp_validate", "sms_validate":
 			kind := strings.SplitN(flow, "_", 2)[0]
 			u := rec.Before.Users[subjectOf(s, rec, kind)]
@@ -310,10 +338,31 @@ var c04Templates = []sim.Template{
 	}},
 }
 
+// c04RecoverProfile: failures, a completed password recovery in the middle, more failures / a login.
+var c04RecoverProfile = &sim.Profile{
+	W:      map[string]int{"login": 40, "advance": 20, "admin_lock": 3, "admin_unlock": 3, "logout": 3},
+	Cls:    map[string]map[string]int{"login": {"ok": 35, "wrong": 65}},
+	MinLen: 12, MaxLen: 24, TplProb: 1,
+	Templates: []sim.Template{{Name: "recovery-between-failures", F: func(s *sim.Sim) []*sim.Action {
+		v := s.R.Intn(len(s.Accts))
+		var sc []*sim.Action
+		for i := 0; i < s.R.Intn(s.W.AB.Config.Modules.LockAfter+1); i++ {
+			sc = append(sc, act("login", 0, v, "wrong"))
+		}
+		if s.R.Intn(3) == 0 {
+			sc = append(sc, act("admin_lock", 0, v, ""))
+		}
+		e := act("recover_end", 1, v, "current")
+		e.Cls2 = "fresh"
+		sc = append(sc, act("recover_start", 1, v, ""), e, act("login", 0, v, pickS(s.R, "wrong", "ok")), act("login", 0, v, "wrong"), act("login", 0, v, "ok"))
+		return sc
+	}}},
+}
+
 func init() {
 	register(&Check{
 		ID: "C04", Level: "exploration",
-		Rule:  "histories of successes, failures on each path (password, OTP, TOTP code, SMS code — on the validate page and on the confirm/remove pages that share its validator —, recovery code), manual lock/unlock and clock advances drawn from {1s,9s,10s,11s,1m, W-1ns, W, W+1ns, W±1s, 3W, D-1ns, D, D+1ns, D±1s, 3D} for LockAfter in {1,2,3,5} and window/duration in {3ns..2h}x{2ns..12h}, 2-3 accounts interleaved. An independent automaton (count,last,lockedUntil) written from the statement is driven by the same history; after every request that touches an account the stored (AttemptCount, Locked>now, Locked) must equal the automaton's. distinct_nontrivial = distinct (path, class, LockAfter, gap class relative to LockWindow, lock phase, count transition) signatures.",
+		Rule:  "histories of successes, failures on each path (password, OTP, TOTP code, SMS code — on the validate page and on the confirm/remove pages that share its validator —, recovery code), manual lock/unlock and clock advances drawn from {1s,9s,10s,11s,1m, W-1ns, W, W+1ns, W±1s, 3W, D-1ns, D, D+1ns, D±1s, 3D} for LockAfter in {1,2,3,5} and window/duration in {3ns..2h}x{2ns..12h}, 2-3 accounts interleaved. An independent automaton (count,last,lockedUntil) written from the statement is driven by the same history; after every request that touches an account the stored (AttemptCount, Locked>now, Locked) must equal the automaton's. In odd units a second, directed history (its own PRNG) runs the same automaton next to the recover module: failures, an operator lock, a completed password recovery (which is no attempt and, unless recovery logs the user in, no login), further failures and logins. distinct_nontrivial = distinct (path, class, LockAfter, gap class relative to LockWindow, lock phase, count transition) signatures.",
 		Units: func(t string) int { return tierN(t, 1500, 100000) },
 		Run: func(c *RunCtx, unit int) {
 			r := Rng(c.Seed, "C04", unit)
@@ -342,9 +391,23 @@ func init() {
 				return
 			}
 			sim.RunHistory(s, c04Profile, []sim.Monitor{&c04mon{stats: c.Stats, autos: map[string]*lockAuto{}}}, c.Stats, unit)
+			if unit%2 == 1 && len(c.Stats.Violations) == 0 {
+				// a second, directed history with a generator of its own (the histories above stay what they
+				// were): the same lock automaton next to the recover module
+				r2 := Rng(c.Seed, "C04-recover", unit)
+				cfg2 := cfg
+				cfg2.Modules = append(append([]string(nil), cfg.Modules...), "recover")
+				cfg2.RecoverLogin, cfg2.RecoverTTL = unit%4 == 1, 24*time.Hour
+				s2, err := sim.New(cfg2, r2, sim.SeedOpt{Accounts: 2, Browsers: 2, TwoFAProb: 0.3})
+				if err != nil {
+					c.Stats.Inconclusive = append(c.Stats.Inconclusive, "world: "+err.Error())
+					return
+				}
+				sim.RunHistory(s2, c04RecoverProfile, []sim.Monitor{&c04mon{stats: c.Stats, autos: map[string]*lockAuto{}}}, c.Stats, unit)
+			}
 		},
 		Floors: func(t string) map[string]int {
-			return map[string]int{"event:failure": 200, "event:2fa-failure": 30, "event:correct-completed": 100, "event:correct-blocked": 30, "event:correct-parked": 20,
+			return map[string]int{"event:recovery-without-login": 50, "event:failure": 200, "event:2fa-failure": 30, "event:correct-completed": 100, "event:correct-blocked": 30, "event:correct-parked": 20,
 				"event:2fa-success": 10, "event:manual-lock": 10, "event:manual-unlock": 10, "locked-after-event": 50}
 		},
 		Assumptions: []string{
